@@ -265,10 +265,15 @@ pub fn explore(ctx: &Ctx, prop: Prop, job: &Job, env: &Env, stats: &Stats, max_s
                 ctx.violation(&kind, &witness(&job.cfg, &sched, env), json!({"message": msg, "job": job.name, "input": render(lex, &nh)}));
                 return Step::Violation;
             }
+            // product key: (implementation state, reference state). Merging on the implementation state
+            // alone would drop a history whose reference state differs from the first one seen
+            let mut ref_key = 0u128;
             if prop == Prop::C02 {
                 if let Ok(o) = &r {
                     let input = format!("{}{}", job.prefix.concat(), render(lex, &nh));
-                    if let Some((kind, msg)) = crate::c02::compare(&job.cfg, &input, o) {
+                    let (verdict, rk) = crate::c02::compare_keyed(&job.cfg, &input, o);
+                    ref_key = rk;
+                    if let Some((kind, msg)) = verdict {
                         ctx.violation(&kind, &witness(&job.cfg, &sched, env), json!({"message": msg, "job": job.name, "input": input}));
                         return Step::Violation;
                     }
@@ -277,7 +282,7 @@ pub fn explore(ctx: &Ctx, prop: Prop, job: &Job, env: &Env, stats: &Stats, max_s
             match r {
                 Ok(o) => {
                     stats.collected.fetch_add(o.collected as u64, Ordering::Relaxed);
-                    Step::Next(key_of(&o))
+                    Step::Next(if prop == Prop::C02 { digest(&(key_of(&o), ref_key)) } else { key_of(&o) })
                 },
                 Err(_) => Step::Violation, // a panic is reported by C04 only; no successor state
             }
